@@ -949,9 +949,6 @@ def _classify(b):
             if t == 5:
                 return "C50-bare-setslice-absolute-index"
             return None
-        if t == 4 and op[1] < 0 and b["rc"] == 0 and len(bad) == 1 and bad[0][1] == op[2] and bad[0][2] == base + op[1] \
-                and bad[0][0] == len(cur) + op[1]:
-            return "C50-setitem-negative-index-position"
         if t in (11, 12, 13) and b["rc"] == 0 and all(prepos.get(e) == p for e, p in cur):
             return "C50-sort-reverse-imul-positions-stale"
         if t in (0, 8, 9) and not b["roa"] and b["rc"] == 0:
@@ -961,14 +958,10 @@ def _classify(b):
         return None
     want, got, rc, want_rc = b.get("want"), b.get("got"), b.get("rc"), b.get("want_rc")
     if fam == 1:
-        if t == 6:
-            return "C50-proxy-list-setslice"
         if t == 11 and op[1] < 0 and rc == 0 and got == b["pre"]:
             return "C50-proxy-list-imul-negative"
         if t in (12, 13) and rc == 20 and got == b["pre"]:
             return "C50-proxy-list-reverse-sort-unsupported"
-    if fam == 3 and t == 3 and rc == 21 and got == b["pre"] and want_rc == 0 and not _none(op[2]):
-        return "C50-proxy-dict-pop-default"
     return None
 
 
@@ -986,9 +979,10 @@ LEVEL_TEXT = (
     "attached lists) and of the three association-proxy collection classes: for every guarded operation history the "
     "positions of an ordering list equal count_from + index and the list is what ORDER BY position reads back; every "
     "guarded list-proxy / dict-proxy operation is the builtin's operation on the view map getter intermediaries; each "
-    "excluded region (negative index assignment, inherited sort/reverse/*=, re-append of a positioned entity, the bare "
-    "slice loop, proxy slice assignment, *= with a negative count, dict-proxy pop with default) has a _refuted theorem "
-    "with a witness reproduced on the implementation."
+    "excluded region (inherited sort/reverse/*=, re-append of a positioned entity, the bare slice loop, proxy *= with a "
+    "negative count) has a _refuted theorem with a witness reproduced on the implementation; the regions repaired by "
+    "60dfe78 / f24ff68 / 99130b4 (negative index assignment, dict-proxy pop with default, proxy slice assignment) are "
+    "now inside the guarded theorems."
 )
 LEVEL_NOTE = (
     "partial: the set-proxy theorem covers add/discard/remove/clear/update/difference_update/|=/-=; the bulk "
